@@ -7,6 +7,7 @@
    number of servers, terms or offsets. *)
 From Coq Require Import List NArith ZArith Permutation.
 From Oxia.Coord Require Import Model SelectProofs NodeProofs ElectionProofs Witnesses Config ConfigProofs.
+From Oxia.Cluster Require Model Invariants Preservation.
 Import ListNotations.
 Open Scope Z_scope.
 
@@ -144,3 +145,15 @@ Theorem c05_config_stale_retry_refuted :
     exists w' k', step fixed (cw x) ACoordStartElection = Some w' /\ w_coord w' = Some k' /\ c_term (k_md k') <= t.
 Proof. exact config_stale_retry_refuted. Qed.
 Print Assumptions c05_config_stale_retry_refuted.
+
+(* Cluster level (World model of Cluster/Model.v, C01's invariant): in every state reachable by any execution without
+   ensemble change, two nodes that lead (BecomeLeader in progress or LEADER) in the same term are the same node. *)
+Theorem c05_one_leader_per_term_cluster : forall E acts w,
+  NoDup E -> Oxia.Cluster.Preservation.no_swap acts = true ->
+  Oxia.Cluster.Model.run (Oxia.Cluster.Model.init E) acts = Some w ->
+  forall n m, Oxia.Cluster.Invariants.leading (Oxia.Cluster.Model.nodes w n) ->
+              Oxia.Cluster.Invariants.leading (Oxia.Cluster.Model.nodes w m) ->
+              Oxia.Cluster.Model.nterm (Oxia.Cluster.Model.nodes w n) = Oxia.Cluster.Model.nterm (Oxia.Cluster.Model.nodes w m) ->
+              n = m.
+Proof. exact Oxia.Cluster.Preservation.one_leader_per_term. Qed.
+Print Assumptions c05_one_leader_per_term_cluster.
